@@ -593,3 +593,375 @@ theorem tagRead_of_lines (r0 : TagList) (text h : Str) (rest : List Str)
   simp [TagList.read, hl, hh]
 
 end EupsModel.Manifest
+
+namespace EupsModel.Manifest
+
+/-! ### Mapping: what `add` does to look-ups -/
+
+/-- the per-version table of a product in a flavor -/
+def prodTable (m : MapTable) (fl p : Str) : Option (List (Str × (Str × Option Str))) :=
+  (assocGet m fl).bind fun byP => assocGet byP p
+
+theorem apply1_eq (m : Mapping) (inP inV fl : Str) :
+    m.apply1 inP inV fl =
+      match prodTable m.map fl inP with
+      | none => (inP, some inV)
+      | some byV =>
+        if byV.isEmpty then (inP, none)
+        else match assocGet byV inV with
+          | some r => r
+          | none => match assocGet byV sAny with
+            | some r => r
+            | none => (inP, some inV) := by
+  unfold Mapping.apply1 prodTable
+  cases assocGet m.map fl with
+  | none => rfl
+  | some byP =>
+    cases assocGet byP inP with
+    | none => rfl
+    | some byV => rfl
+
+theorem prodTable_tableAdd_other (pinned : Bool) (m : MapTable) (inP inV outP : Str) (outV : Option Str)
+    (flavor : Str) (ow : Bool) (fl p : Str) (hp : p ≠ inP) :
+    prodTable (tableAdd pinned m inP inV outP outV flavor ow) fl p = prodTable m fl p := by
+  unfold prodTable tableAdd
+  by_cases hf : fl = flavor
+  · subst hf
+    simp only [assocGet_assocSet_same, Option.bind_some]
+    rw [assocGet_assocSet_other _ _ _ _ hp]
+    cases assocGet m fl with
+    | none => simp [assocGet]
+    | some byP => simp
+  · rw [assocGet_assocSet_other _ _ _ _ hf]
+
+theorem prodTable_tableAdd_other_flavor (pinned : Bool) (m : MapTable) (inP inV outP : Str) (outV : Option Str)
+    (flavor : Str) (ow : Bool) (fl p : Str) (hf : fl ≠ flavor) :
+    prodTable (tableAdd pinned m inP inV outP outV flavor ow) fl p = prodTable m fl p := by
+  unfold prodTable tableAdd
+  rw [assocGet_assocSet_other _ _ _ _ hf]
+
+/-- a rule as `Mapping.add` receives it -/
+structure Rule where
+  inP : Str
+  inV : Str
+  outP : Option Str
+  outV : Option Str
+  flavor : Str
+  overwrite : Bool := true
+
+def addRule (pinned : Bool) (m : Mapping) (r : Rule) : Mapping :=
+  m.addP pinned r.inP r.inV r.outP r.outV r.flavor r.overwrite
+
+/-- the mapping a list of rules builds, in order -/
+def buildMapping (pinned : Bool) (rules : List Rule) : Mapping := rules.foldl (addRule pinned) {}
+
+theorem addP_map (pinned : Bool) (m : Mapping) (inP inV : Str) (outP outV : Option Str) (fl : Str) (ow : Bool) :
+    (m.addP pinned inP inV outP outV fl ow).map = m.map ∨
+      (m.addP pinned inP inV outP outV fl ow).map =
+        tableAdd pinned m.map inP inV (if falsy outP then inP else outP.getD []) outV fl ow := by
+  unfold Mapping.addP
+  by_cases h : (!falsy outV && lowerAscii (outV.getD []) == sNoreinstall) = true
+  · left; simp only [h, if_true]
+  · right; simp only [h, if_false]; rfl
+
+theorem prodTable_addRule_other (pinned : Bool) (m : Mapping) (r : Rule) (fl p : Str) (hp : p ≠ r.inP) :
+    prodTable (addRule pinned m r).map fl p = prodTable m.map fl p := by
+  unfold addRule
+  rcases addP_map pinned m r.inP r.inV r.outP r.outV r.flavor r.overwrite with h | h
+  · rw [h]
+  · rw [h]; exact prodTable_tableAdd_other _ _ _ _ _ _ _ _ _ _ hp
+
+theorem prodTable_build_unmentioned (pinned : Bool) (rules : List Rule) (fl p : Str)
+    (h : ∀ r ∈ rules, r.inP ≠ p) : ∀ m : Mapping, prodTable m.map fl p = none →
+    prodTable (rules.foldl (addRule pinned) m).map fl p = none := by
+  induction rules with
+  | nil => intro m hm; exact hm
+  | cons r rest ih =>
+    intro m hm
+    apply ih (fun q hq => h q (by simp [hq]))
+    rw [prodTable_addRule_other pinned m r fl p (fun e => h r (by simp) e.symm)]
+    exact hm
+
+/-- a product no rule mentions is mapped to itself, whatever its version and the flavor -/
+theorem apply_unmentioned (pinned : Bool) (rules : List Rule) (p v fl : Str) (h : ∀ r ∈ rules, r.inP ≠ p) :
+    (buildMapping pinned rules).apply p v fl = (p, some v) := by
+  have key : ∀ f, (buildMapping pinned rules).apply1 p v f = (p, some v) := by
+    intro f
+    have := prodTable_build_unmentioned pinned rules f p h {} rfl
+    rw [apply1_eq]
+    unfold buildMapping
+    rw [this]
+  unfold Mapping.apply
+  simp [key]
+
+end EupsModel.Manifest
+
+namespace EupsModel.Manifest
+
+/-! ### the inverse of a one-to-one mapping -/
+
+/-- `mapping[flavor][product][version]` -/
+def lk (T : MapTable) (f p v : Str) : Option (Str × Option Str) := (prodTable T f p).bind fun byV => assocGet byV v
+
+theorem assocGet_mem {β : Type} (l : List (Str × β)) (k : Str) (x : β) (h : assocGet l k = some x) : (k, x) ∈ l := by
+  induction l with
+  | nil => simp [assocGet] at h
+  | cons q r ih =>
+    obtain ⟨k', v'⟩ := q
+    by_cases hk : k' = k
+    · simp only [assocGet, hk, if_true, Option.some.injEq] at h
+      simp [hk, h]
+    · simp only [assocGet, hk, if_false] at h
+      simp [ih h]
+
+theorem tableExists_eq (T : MapTable) (p v f : Str) : tableExists T p v f = (lk T f p v).isSome := by
+  unfold tableExists lk prodTable
+  cases assocGet T f with
+  | none => rfl
+  | some byP =>
+    simp only [Option.bind_some]
+    cases assocGet byP p with
+    | none => rfl
+    | some byV => rfl
+
+theorem apply1_of_lk (m : Mapping) (p v f : Str) (r : Str × Option Str) (h : lk m.map f p v = some r) :
+    m.apply1 p v f = r := by
+  rw [apply1_eq]
+  unfold lk at h
+  cases hp : prodTable m.map f p with
+  | none => simp [hp] at h
+  | some byV =>
+    simp only [hp, Option.bind_some] at h
+    have hne : byV.isEmpty = false := by
+      cases byV with
+      | nil => simp [assocGet] at h
+      | cons _ _ => rfl
+    simp [hne, h]
+
+/-- a word that `Mapping.add` takes as a genuine out-version -/
+def Plain (w : Str) : Prop := w ≠ [] ∧ lowerAscii w ≠ sNoreinstall
+
+theorem add_map_plain (m : Mapping) (p v outP outV f : Str) (hv : Plain outV) (hp : outP ≠ []) :
+    (m.add p v (some outP) (some outV) f true).map = tableAdd false m.map p v outP (some outV) f true := by
+  have h1 : falsy (some outV) = false := by
+    cases outV with
+    | nil => exact absurd rfl hv.1
+    | cons _ _ => rfl
+  have h2 : (lowerAscii outV == sNoreinstall) = false := by simpa using hv.2
+  have h3 : falsy (some outP) = false := by
+    cases outP with
+    | nil => exact absurd rfl hp
+    | cons _ _ => rfl
+  simp [Mapping.add, Mapping.addP, h1, h2, h3]
+
+theorem lk_tableAdd_same (T : MapTable) (p v outP outV f : Str) (hv : outV ≠ []) :
+    lk (tableAdd false T p v outP (some outV) f true) f p v = some (outP, some outV) := by
+  have h1 : falsy (some outV) = false := by
+    cases outV with
+    | nil => exact absurd rfl hv
+    | cons _ _ => rfl
+  simp [lk, prodTable, tableAdd, assocGet_assocSet_same, h1]
+
+theorem lk_tableAdd_other (T : MapTable) (p v outP : Str) (outV : Option Str) (f f' p' v' : Str)
+    (h : ¬ (f' = f ∧ p' = p ∧ v' = v)) :
+    lk (tableAdd false T p v outP outV f true) f' p' v' = lk T f' p' v' := by
+  by_cases hf : f' = f
+  · subst hf
+    by_cases hp : p' = p
+    · subst hp
+      have hv : v' ≠ v := fun e => h ⟨rfl, rfl, e⟩
+      unfold lk prodTable tableAdd
+      simp only [assocGet_assocSet_same, Option.bind_some, Bool.not_true, Bool.false_and, Bool.false_eq_true,
+        if_false]
+      cases hT : assocGet T f' with
+      | none =>
+        simp only [Option.getD_none, assocGet, Option.bind_none]
+        split <;> simp [assocGet_assocSet_other, assocGet, assocSet, hv, assocDel, Ne.symm hv]
+      | some byP =>
+        simp only [Option.getD_some, Option.bind_some]
+        cases hP : assocGet byP p' with
+        | none =>
+          simp only [Option.getD_none, Option.bind_none]
+          split <;> simp [assocGet, assocSet, Ne.symm hv]
+        | some byV =>
+          simp only [Option.getD_some, Option.bind_some]
+          split <;> simp [assocGet_assocSet_other _ _ _ _ hv]
+    · unfold lk
+      rw [prodTable_tableAdd_other _ _ _ _ _ _ _ _ _ _ hp]
+  · unfold lk
+    rw [prodTable_tableAdd_other_flavor _ _ _ _ _ _ _ _ _ _ hf]
+
+/-- one entry of a table: flavor, product, in-version, out-product, out-version -/
+abbrev Entry := Str × Str × Str × Str × Option Str
+
+def entriesV (f p : Str) (byV : List (Str × (Str × Option Str))) : List Entry :=
+  byV.map fun q => (f, p, q.1, q.2.1, q.2.2)
+def entriesP (f : Str) (byP : List (Str × List (Str × (Str × Option Str)))) : List Entry :=
+  byP.flatMap fun q => entriesV f q.1 q.2
+def entries (T : MapTable) : List Entry := T.flatMap fun q => entriesP q.1 q.2
+
+/-- the body of the innermost loop of `Mapping.inverse` -/
+def stepInv (inv : Mapping) (e : Entry) : Option Mapping :=
+  match e.2.2.2.2 with
+  | none => some inv
+  | some ov =>
+    if tableExists inv.map e.2.2.2.1 ov e.1 then none
+    else some (inv.add e.2.2.2.1 ov (some e.2.1) (some e.2.2.1) e.1 true)
+
+theorem inverse_eq_fold (m : Mapping) : m.inverse = (entries m.map).foldlM stepInv {} := by
+  have hV : ∀ (f p : Str) (byV : List (Str × (Str × Option Str))) (inv : Mapping),
+      byV.foldlM (fun (inv : Mapping) (x : Str × (Str × Option Str)) =>
+        match x with
+        | (inV, (outP, outV)) =>
+          match outV with
+          | none => some inv
+          | some ov =>
+            if tableExists inv.map outP ov f then none
+            else some (inv.add outP ov (some p) (some inV) f true)) inv =
+      (entriesV f p byV).foldlM stepInv inv := by
+    intro f p byV
+    induction byV with
+    | nil => intro inv; rfl
+    | cons q r ih =>
+      intro inv
+      obtain ⟨v, op, ov⟩ := q
+      simp only [List.foldlM_cons, entriesV, List.map_cons]
+      cases ov with
+      | none =>
+        simp only [stepInv, Option.bind_eq_bind, Option.bind_some]
+        exact ih inv
+      | some w =>
+        simp only [stepInv]
+        by_cases hx : tableExists inv.map op w f = true
+        · simp [hx]
+        · simp only [hx, Bool.false_eq_true, if_false, Option.bind_eq_bind, Option.bind_some]
+          exact ih _
+  have hP : ∀ (f : Str) (byP : List (Str × List (Str × (Str × Option Str)))) (inv : Mapping),
+      byP.foldlM (fun (inv : Mapping) (x : Str × List (Str × (Str × Option Str))) =>
+        match x with
+        | (inP, byV) =>
+          byV.foldlM (fun (inv : Mapping) (x : Str × (Str × Option Str)) =>
+            match x with
+            | (inV, (outP, outV)) =>
+              match outV with
+              | none => some inv
+              | some ov =>
+                if tableExists inv.map outP ov f then none
+                else some (inv.add outP ov (some inP) (some inV) f true)) inv) inv =
+      (entriesP f byP).foldlM stepInv inv := by
+    intro f byP
+    induction byP with
+    | nil => intro inv; rfl
+    | cons q r ih =>
+      intro inv
+      obtain ⟨p, byV⟩ := q
+      simp only [List.foldlM_cons, entriesP, List.flatMap_cons, List.foldlM_append]
+      rw [hV f p byV inv]
+      cases (entriesV f p byV).foldlM stepInv inv with
+      | none => rfl
+      | some inv1 => exact ih inv1
+  have hT : ∀ (T : MapTable) (inv : Mapping),
+      T.foldlM (fun (inv : Mapping) (x : Str × List (Str × List (Str × (Str × Option Str)))) =>
+        match x with
+        | (f, byP) =>
+          byP.foldlM (fun (inv : Mapping) (x : Str × List (Str × (Str × Option Str))) =>
+            match x with
+            | (inP, byV) =>
+              byV.foldlM (fun (inv : Mapping) (x : Str × (Str × Option Str)) =>
+                match x with
+                | (inV, (outP, outV)) =>
+                  match outV with
+                  | none => some inv
+                  | some ov =>
+                    if tableExists inv.map outP ov f then none
+                    else some (inv.add outP ov (some inP) (some inV) f true)) inv) inv) inv =
+      (entries T).foldlM stepInv inv := by
+    intro T
+    induction T with
+    | nil => intro inv; rfl
+    | cons q r ih =>
+      intro inv
+      obtain ⟨f, byP⟩ := q
+      simp only [List.foldlM_cons, entries, List.flatMap_cons, List.foldlM_append]
+      rw [hP f byP inv]
+      cases (entriesP f byP).foldlM stepInv inv with
+      | none => rfl
+      | some inv1 => exact ih inv1
+  exact hT m.map {}
+
+theorem mem_entries_of_lk (T : MapTable) (f p v op : Str) (ov : Option Str) (h : lk T f p v = some (op, ov)) :
+    (f, p, v, op, ov) ∈ entries T := by
+  unfold lk prodTable at h
+  cases hf : assocGet T f with
+  | none => simp [hf] at h
+  | some byP =>
+    simp only [hf, Option.bind_some] at h
+    cases hp : assocGet byP p with
+    | none => simp [hp] at h
+    | some byV =>
+      simp only [hp, Option.bind_some] at h
+      have m1 := assocGet_mem T f byP hf
+      have m2 := assocGet_mem byP p byV hp
+      have m3 := assocGet_mem byV v (op, ov) h
+      simp only [entries, entriesP, entriesV, List.mem_flatMap, List.mem_map]
+      exact ⟨(f, byP), m1, (p, byV), m2, (v, (op, ov)), m3, rfl⟩
+
+/-- the key under which the inverse stores the image of an entry -/
+def outKey (e : Entry) : Str × Str × Option Str := (e.1, e.2.2.2.1, e.2.2.2.2)
+
+/-- an entry the inverse is claimed for: not a removal, a product name, a genuine in-version -/
+def EntryOk (e : Entry) : Prop := e.2.1 ≠ [] ∧ Plain e.2.2.1 ∧ e.2.2.2.2.isSome = true
+
+instance (w : Str) : Decidable (Plain w) := by unfold Plain; exact inferInstance
+instance (e : Entry) : Decidable (EntryOk e) := by unfold EntryOk; exact inferInstance
+
+theorem fold_stepInv (E : List Entry) : ∀ inv0 : Mapping,
+    E.Pairwise (fun a b => outKey a ≠ outKey b) → (∀ e ∈ E, EntryOk e) →
+    (∀ e ∈ E, ∀ w, e.2.2.2.2 = some w → lk inv0.map e.1 e.2.2.2.1 w = none) →
+    ∃ inv, E.foldlM stepInv inv0 = some inv ∧
+      (∀ e ∈ E, ∀ w, e.2.2.2.2 = some w → lk inv.map e.1 e.2.2.2.1 w = some (e.2.1, some e.2.2.1)) ∧
+      (∀ f p w, (∀ e ∈ E, outKey e ≠ (f, p, some w)) → lk inv.map f p w = lk inv0.map f p w) := by
+  induction E with
+  | nil => intro inv0 _ _ _; exact ⟨inv0, rfl, by simp, fun _ _ _ _ => rfl⟩
+  | cons e rest ih =>
+    intro inv0 hpw hok hfree
+    obtain ⟨f, p, v, op, ov⟩ := e
+    obtain ⟨hp, hv, hsome⟩ := hok (f, p, v, op, ov) (by simp)
+    simp only at hp hv hsome
+    obtain ⟨w, hw⟩ := Option.isSome_iff_exists.mp hsome
+    subst hw
+    have hnone := hfree (f, p, v, op, some w) (by simp) w rfl
+    simp only at hnone
+    have hex : tableExists inv0.map op w f = false := by rw [tableExists_eq, hnone]; rfl
+    have hmap := add_map_plain inv0 op w p v f hv hp
+    have hrest_pw := (List.pairwise_cons.mp hpw).2
+    have hhead_ne := (List.pairwise_cons.mp hpw).1
+    obtain ⟨inv, hfold, himg, hframe⟩ := ih (inv0.add op w (some p) (some v) f true) hrest_pw
+      (fun e he => hok e (by simp [he]))
+      (by
+        intro e he w' hw'
+        rw [hmap, lk_tableAdd_other]
+        · exact hfree e (by simp [he]) w' hw'
+        · intro hh
+          apply hhead_ne e he
+          obtain ⟨f', p', v', op', ov'⟩ := e
+          simp only at hw' hh
+          subst hw'
+          simp [outKey, hh.1, hh.2.1, hh.2.2])
+    refine ⟨inv, ?_, ?_, ?_⟩
+    · simp only [List.foldlM_cons, stepInv, hex, Bool.false_eq_true, if_false, Option.bind_eq_bind, Option.bind_some]
+      exact hfold
+    · intro e he w' hw'
+      rcases List.mem_cons.mp he with rfl | he
+      · simp only at hw'
+        cases hw'
+        rw [hframe f op w (fun e' he' hk => hhead_ne e' he' hk.symm), hmap]
+        exact lk_tableAdd_same _ _ _ _ _ _ hv.1
+      · exact himg e he w' hw'
+    · intro f' p' w' hne
+      rw [hframe f' p' w' (fun e' he' => hne e' (by simp [he'])), hmap, lk_tableAdd_other]
+      intro hh
+      apply hne (f, p, v, op, some w) (by simp)
+      simp [outKey, hh.1, hh.2.1, hh.2.2]
+
+end EupsModel.Manifest
